@@ -130,6 +130,12 @@ func RUnlock(site int, m RLocker) {
 }
 
 // Send replaces `ch <- v`.
+// SendTo returns the send operation on ch as a function of the value, so that generated code can pass any value
+// assignable to the element type.
+func SendTo[T any](site int, ch chan<- T) func(T) {
+	return func(v T) { Send(site, ch, v) }
+}
+
 func Send[T any](site int, ch chan<- T, v T) {
 	s := cur()
 	if s == nil {
